@@ -1113,3 +1113,32 @@ def ast_of(arg: dict) -> dict:
         return {"parsed": True, "flat": _flat([n.to_representation() for n in r.nodes]), "err": None, "src": src}
     except BaseException as e:  # noqa: BLE001
         return {"parsed": False, "flat": [], "err": f"{type(e).__name__}: {e}", "src": src}
+
+
+# ------------------------------------------------------------------------------------------
+# script-dumping helpers (Pointers.tla; diagnostic layer beyond the listed properties)
+# ------------------------------------------------------------------------------------------
+def pointers_case(arg: dict) -> dict:
+    import contextlib
+    import struct
+    out = {"err": "", "values": [], "values_bin": [], "addr_bin": [], "table_read": []}
+    try:
+        from script.formulas import base_relative_16bits_pointer_formula
+        from script.pointers import Script, write_pointers_addresses_as_binary, write_pointers_value_as_binary
+        wd = _workdir()
+        os.chdir(wd)
+        ps = sorted(arg["ps"], key=lambda p: p["id"])
+        table = io.BytesIO(b"\xEE" * 3 + b"".join(struct.pack("<H", p["addr"]) for p in ps))
+        sc = Script(io.BytesIO(bytes(arg["rom"])))
+        with contextlib.redirect_stdout(io.StringIO()):
+            out["table_read"] = [p.address for p in sc.read_pointers(table, 3, len(ps), 2, base_relative_16bits_pointer_formula(arg["base"]))]
+            ptrs = sc.read_pointers(table, 3, len(ps), 2, base_relative_16bits_pointer_formula(0))
+            got = sc.read_pointers_content(ptrs, arg["e"])
+            out["values"] = [list(p.get_value()) for p in sorted(got, key=lambda p: p.id)]
+            write_pointers_value_as_binary(got, "vals.bin")
+            write_pointers_addresses_as_binary(got, lambda o: struct.pack("<H", o), "addr.bin")
+        out["values_bin"] = list(open("vals.bin", "rb").read())
+        out["addr_bin"] = list(open("addr.bin", "rb").read())
+    except BaseException as e:  # noqa: BLE001
+        out["err"] = f"{type(e).__name__}: {e}"
+    return out
